@@ -7,7 +7,7 @@ LEAN_TARGETS = ["EtkVerif.Props.C18"]
 RULE = ("a fixed tree (project root with subdirectories, files outside it carrying a canary instruction, symlinked files and "
         "directories pointing inside and outside, an absolute symlink, a self-referential symlink, a root reached through a "
         "symlink) and 1-3 random directives per case over 25 targets: relative, `..`-laden, absolute (inside and outside), "
-        "through links, missing, a directory. Outcome class compared with the model on its concrete file system; the oracle "
+        "through links, missing, a directory. Outcome class AND the set of files opened for reading (observed with strace; every run, also failing ones) compared with the traced model on its concrete file system; the oracle "
         "re-materialises the tree and resolves targets with the operating system's realpath. non-trivial = a target that "
         "exists outside the root")
 EXHAUSTIVE = {"quick": False, "thorough": False}
@@ -20,8 +20,83 @@ def cases(rng, tier):
     for _ in range(n):
         top, entries, lines = F.gen_contain(rng)
         jentries = [[e[0], e[1], e[2].hex() if isinstance(e[2], bytes) else e[2]] for e in entries]
-        cs.append({"line": F.line(top, entries), "tags": ["contain"], "fs": [top, jentries, lines], "src": "\n".join(lines)})
+        line = F.line(top, entries)
+        # the model runs the TRACED ingestion and reports the files it read (also on failing runs)
+        cs.append({"line": line, "model_line": "asmfsr" + line[len("asmfs"):], "tags": ["contain"], "fs": [top, jentries, lines],
+                   "src": "\n".join(lines)})
     return cs
+
+
+def impl_runner(cases):
+    """the real assembler under `strace -e openat`: besides its reply, every case gets the list of files the process
+    opened for reading inside the case's materialised tree (`observed`), in order"""
+    import os, re, subprocess, tempfile
+    log = tempfile.NamedTemporaryFile(prefix="etk-strace-", suffix=".log", delete=False).name
+    lines = [c["line"] for c in cases]
+    try:
+        try:
+            r = subprocess.run(["strace", "-f", "-qq", "-e", "trace=openat,open", "-o", log, C.CORE_EXE], input="\n".join(lines) + "\n",
+                               capture_output=True, text=True, timeout=1800)
+        except (OSError, subprocess.TimeoutExpired):
+            # no strace / ptrace not permitted: no observations, outcomes are still compared
+            for c in cases:
+                c["observed"] = None
+            return C.run_lines(C.CORE_EXE, lines)
+        outs = r.stdout.split("\n")
+        if outs and outs[-1] == "":
+            outs.pop()
+        if r.returncode != 0 or len(outs) != len(lines):
+            # a crash of the harness: fall back to the plain runner (no observations; the oracle still sees the reply)
+            for c in cases:
+                c["observed"] = None
+            return C.run_lines(C.CORE_EXE, lines)
+        per, order = {}, []
+        pat = re.compile(r'open(?:at)?\((?:AT_FDCWD, )?"((?:[^"\\]|\\.)*)", ([A-Z_|0-9]+)(?:, [0-7]+)?\)\s+= (-?\d+)')
+        for l in open(log, errors="replace"):
+            m = pat.search(l)
+            if not m:
+                continue
+            path, flags, ret = m.group(1), m.group(2), int(m.group(3))
+            k = re.match(r"(/.*?/etk-h-fs-\d+-\d+)(/.*)?$", path)
+            if not k:
+                continue
+            base = k.group(1)
+            if base not in per:
+                per[base] = []; order.append(base)
+            if ret < 0 or "O_DIRECTORY" in flags or "O_WRONLY" in flags or "O_RDWR" in flags or "O_CREAT" in flags or not k.group(2):
+                continue
+            per[base].append(k.group(2).lstrip("/"))
+        if len(order) != len(cases):
+            for c in cases:
+                c["observed"] = None
+            return outs
+        for c, base in zip(cases, order):
+            c["observed"] = per[base]
+        return outs
+    finally:
+        try:
+            os.unlink(log)
+        except OSError:
+            pass
+
+
+def tie_check(case, impl, model):
+    """same outcome, and the real code read exactly the files the traced model says it read"""
+    m = model.rsplit(" reads=", 1)
+    if len(m) != 2:
+        return f"model reply without a read list: {model[:80]}"
+    if impl != m[0]:
+        return f"outcome differs: implementation `{impl[:80]}`, model `{m[0][:80]}`"
+    obs = case.get("observed")
+    if obs is None:
+        return None
+    got = F.canonical_reads(case, obs)
+    if got is None:
+        return None
+    want = sorted(x for x in m[1].split("|") if x and x != "-")
+    if sorted(got) != want:
+        return f"files read differ: the real code opened {sorted(got)}, the traced model read {want}"
+    return None
 
 
 def prepare(cases):
@@ -30,7 +105,17 @@ def prepare(cases):
         pass
 
 
-oracle = F.contain_oracle
+def oracle(case, reply):
+    why = F.contain_oracle(case, reply)
+    if why:
+        return why
+    obs = case.get("observed")
+    if obs:
+        # the property itself, for EVERY run (successful or not): every file opened for reading lies inside the root
+        bad = F.reads_outside(case, obs)
+        if bad:
+            return f"the assembler opened {bad!r}, which resolves outside the project root (reply: {reply[:60]})"
+    return None
 
 
 def nontrivial(case, reply):
@@ -41,10 +126,13 @@ MANIFEST = {
             "location has the canonical root as a component-wise prefix, reports DirectoryTraversal exactly when the target exists "
             "outside, an I/O error when it does not resolve; trace invariant by induction over preprocess / resolve_and_ingest at any "
             "nesting depth: every file read other than the top-level source lies inside the root and is immediately preceded by the "
-            "successful check of a path resolving to it; an error yields no output bytes.",
+            "successful check of a path resolving to it — for EVERY run, successful or failing (C18_all_runs_*: traced variants of the "
+            "ingestion functions that return the partial trace of failing runs too, proved to agree with the original ones).",
     "note": "Partial by nature: that std::fs::canonicalize returns the fully resolved location and that the file read is the file checked "
             "(no concurrent modification) are assumptions about the OS, represented by the FS parameter. Trusted: Lean kernel; "
             "Asm/Ingest.lean tied to ingest.rs by the differential run on trees with symlinked files/directories, `..`, absolute paths "
-            "and canary files; the oracle re-materialises the tree and uses the OS's own realpath.",
-    "technique": "Lean 4 trace-invariant proof over an abstract file system + differential correspondence on materialised trees with canaries + realpath oracle",
+            "and canary files; the oracle re-materialises the tree and uses the OS's own realpath; the real assembler runs under "
+            "`strace -e openat`, and the files it opened for reading (every run, also the failing ones) must lie inside the root and must be "
+            "exactly the files the traced model reads.",
+    "technique": "Lean 4 trace-invariant proof over an abstract file system (all runs) + differential correspondence on materialised trees with canaries, observed opens (strace) compared with the traced model + realpath oracle",
 }
